@@ -55,6 +55,12 @@ ConcTheorems.vos ConcTheorems.vok ConcTheorems.required_vos: ConcTheorems.v Base
 Bridge.vo Bridge.glob Bridge.v.beautified Bridge.required_vo: Bridge.v Base.vo Arena.vo ArenaProofs.vo Rodeo.vo RodeoInv.vo RodeoProofs.vo ThreadedInv.vo CloneSerdeProofs.vo ThreadedProofs.vo IterEqProofs.vo WorldProofs.vo Conc.vo ConcInv.vo ConcArenaProofs.vo ConcInternProofs.vo ConcTheorems.vo
 Bridge.vio: Bridge.v Base.vio Arena.vio ArenaProofs.vio Rodeo.vio RodeoInv.vio RodeoProofs.vio ThreadedInv.vio CloneSerdeProofs.vio ThreadedProofs.vio IterEqProofs.vio WorldProofs.vio Conc.vio ConcInv.vio ConcArenaProofs.vio ConcInternProofs.vio ConcTheorems.vio
 Bridge.vos Bridge.vok Bridge.required_vos: Bridge.v Base.vos Arena.vos ArenaProofs.vos Rodeo.vos RodeoInv.vos RodeoProofs.vos ThreadedInv.vos CloneSerdeProofs.vos ThreadedProofs.vos IterEqProofs.vos WorldProofs.vos Conc.vos ConcInv.vos ConcArenaProofs.vos ConcInternProofs.vos ConcTheorems.vos
+Sync.vo Sync.glob Sync.v.beautified Sync.required_vo: Sync.v 
+Sync.vio: Sync.v 
+Sync.vos Sync.vok Sync.required_vos: Sync.v 
+Orderings.vo Orderings.glob Orderings.v.beautified Orderings.required_vo: Orderings.v Sync.vo
+Orderings.vio: Orderings.v Sync.vio
+Orderings.vos Orderings.vok Orderings.required_vos: Orderings.v Sync.vos
 Facts.vo Facts.glob Facts.v.beautified Facts.required_vo: Facts.v 
 Facts.vio: Facts.v 
 Facts.vos Facts.vok Facts.required_vos: Facts.v 
@@ -85,6 +91,9 @@ Props/C04.vos Props/C04.vok Props/C04.required_vos: Props/C04.v Base.vos Arena.v
 Props/C05.vo Props/C05.glob Props/C05.v.beautified Props/C05.required_vo: Props/C05.v Base.vo Arena.vo Conc.vo ConcInv.vo ConcArenaProofs.vo
 Props/C05.vio: Props/C05.v Base.vio Arena.vio Conc.vio ConcInv.vio ConcArenaProofs.vio
 Props/C05.vos Props/C05.vok Props/C05.required_vos: Props/C05.v Base.vos Arena.vos Conc.vos ConcInv.vos ConcArenaProofs.vos
+Props/C05R.vo Props/C05R.glob Props/C05R.v.beautified Props/C05R.required_vo: Props/C05R.v Sync.vo Orderings.vo
+Props/C05R.vio: Props/C05R.v Sync.vio Orderings.vio
+Props/C05R.vos Props/C05R.vok Props/C05R.required_vos: Props/C05R.v Sync.vos Orderings.vos
 Props/C06.vo Props/C06.glob Props/C06.v.beautified Props/C06.required_vo: Props/C06.v Base.vo Arena.vo ArenaProofs.vo Rodeo.vo RodeoInv.vo RodeoProofs.vo ThreadedInv.vo CloneSerdeProofs.vo ThreadedProofs.vo IterEqProofs.vo WorldProofs.vo
 Props/C06.vio: Props/C06.v Base.vio Arena.vio ArenaProofs.vio Rodeo.vio RodeoInv.vio RodeoProofs.vio ThreadedInv.vio CloneSerdeProofs.vio ThreadedProofs.vio IterEqProofs.vio WorldProofs.vio
 Props/C06.vos Props/C06.vok Props/C06.required_vos: Props/C06.v Base.vos Arena.vos ArenaProofs.vos Rodeo.vos RodeoInv.vos RodeoProofs.vos ThreadedInv.vos CloneSerdeProofs.vos ThreadedProofs.vos IterEqProofs.vos WorldProofs.vos
